@@ -60,7 +60,7 @@ def run(ck):
     def cover():
         consts = {"MaxPeer": 3 if quick else 4, "MaxCalls": 3, "BUG_SecondClose": "FALSE"}
         cfg = vlib.cfg_with(sw, "WsSessionImpl_mc.cfg", consts)
-        r = vlib.tlc(sw, "WsSessionImpl", cfg, workers=1, timeout=1500)
+        r = vlib.tlc(sw, "WsSessionImpl", cfg, workers=1, timeout=1500, env={"JAVA_TOOL_OPTIONS": "-Xmx4g"})
         if not r.ok:
             raise vlib.Inconclusive("WsSessionImpl cover: %s\n%s" % (r.violated or r.error, r.tail()))
         ck.add_tlc("WsSessionImpl transition cover", r, consts)
@@ -86,7 +86,7 @@ def run(ck):
     def count():
         consts = {"MaxPeer": 5, "MaxCalls": 4, "BUG_SecondClose": "FALSE"}
         cfg = vlib.cfg_with(sw, "WsSessionImpl_count.cfg", consts)
-        r = vlib.tlc(sw, "WsSessionImpl", cfg, workers=3 if quick else max(4, vlib.NCPU - 6), timeout=1500)
+        r = vlib.tlc(sw, "WsSessionImpl", cfg, workers=3 if quick else max(4, vlib.NCPU - 6), timeout=1500, env={"JAVA_TOOL_OPTIONS": "-Xmx8g"})
         if not r.ok:
             raise vlib.Inconclusive("WsSessionImpl exhaustive: %s\n%s" % (r.violated or r.error, r.tail()))
         ck.add_tlc("WsSessionImpl exhaustive", r, consts)
@@ -97,14 +97,14 @@ def run(ck):
         # the spec with the defect switched back on must reject (evidence that the model can see it)
         consts = {"MaxPeer": 2, "MaxCalls": 3, "BUG_SecondClose": "TRUE"}
         cfg = vlib.cfg_with(sw, "WsSessionImpl_strict.cfg", consts)
-        r = vlib.tlc(sw, "WsSessionImpl", cfg, workers=1, timeout=600)
+        r = vlib.tlc(sw, "WsSessionImpl", cfg, workers=1, timeout=600, env={"JAVA_TOOL_OPTIONS": "-Xmx4g"})
         ck.cov["bug_switch_demo"] = {"BUG_SecondClose": "NotBad violated" if r.violated == "NotBad" else "NOT caught: %s" % (r.violated or r.error or "ok")}
 
     def sim(k):
         consts = {"MaxPeer": 5, "MaxCalls": 4, "BUG_SecondClose": "FALSE"}
         cfg = vlib.cfg_with(sw, "WsSessionImpl_sim.cfg", consts)
-        n = 1500 if quick else 60000
-        r = vlib.tlc(sw, "WsSessionImpl", cfg, workers=1, simulate=n, depth=12, seed=ck.seed * 1000 + k, timeout=1500)
+        n = 1500 if quick else 20000
+        r = vlib.tlc(sw, "WsSessionImpl", cfg, workers=1, simulate=n, depth=12, seed=ck.seed * 1000 + k, timeout=1500, env={"JAVA_TOOL_OPTIONS": "-Xmx4g"})
         if r.violated or (r.error and "timeout" in r.error):
             raise vlib.Inconclusive("WsSessionImpl simulation: %s\n%s" % (r.violated or r.error, r.tail()))
         ck.add_tlc("WsSessionImpl random simulation", r, consts, exhaustive=False)
